@@ -21,6 +21,7 @@ import decimal
 import io
 import json
 import random
+import os
 import sys
 import threading
 import warnings
@@ -131,6 +132,23 @@ def snapshot():
     snap["sys.path"] = tuple(sys.path)
     snap["warnings.filters"] = tuple(repr(f) for f in warnings.filters)
     snap["cvss modules"] = tuple(sorted(n for n in sys.modules if n == "cvss" or n.startswith("cvss.")))
+    # other process-wide settings a library has no business changing (the fresh-process probe, vf/probe27.py, has a longer list:
+    # the recursion limit, the random state and the collector are touched by Hypothesis itself in this process)
+    import locale
+    import logging
+    import signal
+    for name in ("SIGINT", "SIGPIPE", "SIGTERM", "SIGHUP", "SIGALRM", "SIGCHLD", "SIGUSR1", "SIGUSR2", "SIGQUIT", "SIGTSTP", "SIGWINCH"):
+        try:
+            h = signal.getsignal(getattr(signal, name))
+        except (AttributeError, ValueError, OSError):
+            continue
+        snap["signal." + name] = getattr(h, "__name__", None) or repr(h)
+    snap["locale"] = locale.setlocale(locale.LC_ALL)
+    snap["os.environ"] = tuple(sorted(os.environ.items()))
+    snap["cwd"] = os.getcwd()
+    snap["hooks"] = (sys.excepthook is sys.__excepthook__, sys.displayhook is sys.__displayhook__)
+    snap["logging root"] = (logging.root.level, len(logging.root.handlers), logging.root.manager.disable)
+    snap["warnings.showwarning"] = (getattr(warnings.showwarning, "__module__", None), getattr(warnings.showwarning, "__name__", None))
     return snap
 
 
